@@ -90,12 +90,16 @@ Definition agree (c : case) : bool :=
   end.
 
 (* monitor: never two inside; whoever is inside holds the lock when it enters
-   and still holds it when it calls release *)
+   and still holds it when it calls release.  A run in which some thread left the
+   property's contract (released a lock that ANOTHER thread holds: ghost flag viol of
+   the model replaying the same decisions) is not judged for occupancy; kernel/table
+   mismatches are judged always. *)
 Definition ok (c : case) : bool :=
   match c with
   | CSched _ _ _ _ _ occ _ _ km =>
-      forallb (fun x : occ_entry => match x with (_, entering, n, locked) =>
-                          (n <=? 1) && locked && (if entering then Nat.eqb n 1 else Nat.eqb n 0) end) occ
+      let '(_, _, _, _, _, vi) := model_trace c in
+      (vi || forallb (fun x : occ_entry => match x with (_, entering, n, locked) =>
+                          (n <=? 1) && locked && (if entering then Nat.eqb n 1 else Nat.eqb n 0) end) occ)
       && Nat.eqb km 0
   | CProcs _ _ _ collisions _ => Nat.eqb collisions 0
   end.
